@@ -37,8 +37,26 @@ def rich_instance(schema, n):
 _orig_instance = contexp.instance
 
 
+class AsChild(dict):
+    """Corpus entry: the plain content, attached as an INSTANCE OF A CHILD SCHEMA under the parent schema's name."""
+
+    child = None
+
+    def build(self):
+        from metador_core.plugins import schemas
+
+        return schemas[self.child].parse_obj(json.loads(json.dumps(dict(self))))
+
+
+AS_CHILD = {"core.dir+asbib": "core.bib", "vt.bb+ascc": "vt.cc"}
+
+
 def instance(schema, n):
     """Corpus for C20: harness family + minimal instances of every installed schema (+ rich variants)."""
+    if schema in AS_CHILD:
+        v = AsChild(instance(AS_CHILD[schema], n))
+        v.child = AS_CHILD[schema]
+        return v
     if schema.endswith("+rich"):
         return rich_instance(schema[:-5], n)
     if schema.startswith("vt."):
@@ -58,7 +76,9 @@ def make_cfg(seed, max_dev):
     # every installed schema attached at a dataset / a group; rich variants with duration and units
     for i, s in enumerate(INSTALLED):
         ops.append(["attach", (E, G, "/")[i % 3], s])
-    ops += [["attach", GD, "core.file+rich"], ["attach", E, "core.table+rich"], ["detach", E, "core.file"], ["R"], ["B"]]
+    ops += [["attach", GD, "core.file+rich"], ["attach", E, "core.table+rich"], ["detach", E, "core.file"]]
+    # an instance of a child schema (other constants, more fields) attached under the parent schema's name
+    ops += [["attach", G, "core.dir+asbib"], ["attach", E, "vt.bb+ascc"], ["R"], ["B"]]
     cfg["ops"] = ops
     cfg["skip_checks_on_clean_fail"] = True
     return cfg
@@ -181,6 +201,9 @@ def run(tier, seed):
         r = contexp.bfs(pool, "c20", cfg, "h5", 2 if q else 3, budget_s=budget, t0=t0, start=c06.starts(cfg)["rich"])
         violations += r.pop("violations")
         fam["h5-from-rich"] = r
+        r = contexp.bfs(pool, "c20", cfg, "h5", 2 if q else 3, budget_s=budget, t0=t0, start=c06.starts(cfg)["descendants"])
+        violations += r.pop("violations")
+        fam["h5-from-descendants"] = r
     cov = {
         "states": sum(f["states"] for f in fam.values()),
         "transitions": sum(f["transitions"] for f in fam.values()),
